@@ -276,21 +276,22 @@ func (s *rvState) stmt(st pAst.Statement, env *rvEnv) {
 		case 'l':
 			items = append(items, (*it.l)...) // snapshot
 		case 'r':
-			end := it.re
-			if it.rincl {
-				end++
-			}
-			if end-it.i > 64 || end-it.i < -64 {
+			// `a..b` counts up from a to b-1 when a < b and down from a to b+1 otherwise; `..=` also yields b.
+			if it.re-it.i > 64 || it.i-it.re > 64 {
 				s.unsup("long range")
 				return
 			}
-			if it.i <= end {
-				for x := it.i; x < end; x++ {
+			if it.i < it.re {
+				for x := it.i; x < it.re; x++ {
 					items = append(items, rvInt(x))
 				}
 			} else {
-				s.unsup("descending range")
-				return
+				for x := it.i; x > it.re; x-- {
+					items = append(items, rvInt(x))
+				}
+			}
+			if it.rincl {
+				items = append(items, rvInt(it.re))
 			}
 		case 's':
 			// a string is iterated character by character (each a one-character string)
@@ -704,6 +705,16 @@ func (s *rvState) expr(e pAst.Expression, env *rvEnv) *rv {
 		if base.k == 'o' && m == "message" {
 			return s.unsup("missing object field")
 		}
+		if base.k == 'r' {
+			switch m {
+			case "start":
+				return rvInt(base.i)
+			case "end":
+				return rvInt(base.re)
+			case "diff", "rev":
+				return &rv{k: 'F', bi: "range." + m, self: base}
+			}
+		}
 		return s.unsup("member " + m)
 	case pAst.CallExpression:
 		if n.IsSpawn {
@@ -756,6 +767,13 @@ func (s *rvState) expr(e pAst.Expression, env *rvEnv) *rv {
 			return rvNull()
 		case f.bi == "list.len":
 			return rvInt(int64(len(*f.self.l)))
+		case f.bi == "range.diff":
+			if f.self.i > f.self.re {
+				return rvInt(f.self.i - f.self.re)
+			}
+			return rvInt(f.self.re - f.self.i)
+		case f.bi == "range.rev":
+			return &rv{k: 'r', i: f.self.re, re: f.self.i, rincl: f.self.rincl}
 		case f.fn != nil:
 			return s.callFn(f.fn.Parameters, f.fn.Body, s.globals, args)
 		case f.lit != nil:
